@@ -15,7 +15,7 @@ PROP = "C09"
 LEVEL = "exploration"
 RULE = ("seeded cases: an initialiser (None, empty list/tuple/generator/dict, unsorted, with repeats incl. 1 vs 1.0, "
         "mapping or iterable of pairs) followed by 0-80 operations (set: add/discard/remove/pop/clear/in/len/iter; "
-        "map: store/delete/pop/popitem/setdefault/update/get/in/items) over a pool of 26 ints and floats (+-inf, "
+        "map: store/delete/pop/popitem/setdefault/update/get/in/items) over a pool of 29 ints and floats (+-inf, "
         "-0.0, 2**53 neighbours, ints beyond the float range and beyond the 4300-digit str() limit), foreign probes ('a', None, 1j, tuple) through `in`, m[k], get and the removal operations that report absence with KeyError / a default (remove, del, pop), and NaN probes (in, lookup, get, and the removal operations of an absent value). Oracle after "
         "construction and after every operation: strictly ascending iteration, content/len/membership/lookup equal "
         "to set/dict. distinct_nontrivial = distinct (kind, content) states with >=2 keys.")
@@ -32,7 +32,8 @@ SHARD_TIMEOUT = {"quick": 300, "thorough": 3600}
 MOD = "vf.checks.c09"
 
 POOL = [float("-inf"), -3, -1.5, -1, -1.0, -0.0, 0, 0.0, 1, 1.0, 2, 2.5, 3, 3.0, 7, 2 ** 53, float(2 ** 53), 2 ** 53 + 1,
-        2 ** 53 + 2, 10 ** 30, 1e30, float("inf"), 2 ** 1024, -(2 ** 1024) - 1, 10 ** 400, 10 ** 5000]
+        2 ** 53 + 2, 10 ** 30, 1e30, float("inf"), 2 ** 1024, -(2 ** 1024) - 1, 10 ** 400, 10 ** 5000,
+        0.3, 0.1 + 0.2, 1.0000000000000002]      # neighbouring floats are different keys
 BIG_INTS = (10 ** 30, 2 ** 53 + 1, 2 ** 53 + 2, 2 ** 1024, -(2 ** 1024) - 1, 10 ** 400, 10 ** 5000)
 FOREIGN = ["a", None, 1j, (1, 2), "1"]
 
